@@ -29,10 +29,17 @@ class Info(object):
 # ---------------------------------------------------------------- JSON with bytes
 
 
+_RESERVED = ('$b', '$s', '$f', '$r', '$d')
+
+
 def _enc(o):
     if isinstance(o, (bytes, bytearray)):
         return {'$b': bytes(o).hex()}
     if isinstance(o, dict):
+        if len(o) == 1 and next(iter(o)) in _RESERVED:
+            # a real one-key dict whose key collides with an encoding tag
+            k, v = next(iter(o.items()))
+            return {'$d': [str(k), _enc(v)]}
         return {str(k): _enc(v) for k, v in o.items()}
     if isinstance(o, (list, tuple)):
         return [_enc(v) for v in o]
@@ -57,6 +64,8 @@ def _dec(o):
                                  for v in o['$s'])
             if '$f' in o:
                 return float(o['$f'])
+            if '$d' in o:
+                return {o['$d'][0]: _dec(o['$d'][1])}
         return {k: _dec(v) for k, v in o.items()}
     if isinstance(o, list):
         return [_dec(v) for v in o]
